@@ -2,6 +2,7 @@
 import json
 
 import gen_repo
+import go2lean_c03
 import repo_common as rc
 import vlib
 
@@ -24,6 +25,7 @@ def gen_case(rng):
 
 def run(R):
     lean_ok = vlib.step_lean(R, PID)
+    go2lean_c03.step(R)
     exe = vlib.step_harness(R)
     if exe is None:
         R.violation("harness does not build against /repo", {"build_log": R.harness_log[-3000:]}, no_input=True)
@@ -70,6 +72,7 @@ def run(R):
         "request scheme is http in the harness (no TLS listener); the scheme condition is exercised with rules "
         "demanding http, https or nothing",
     ]
+    go2lean_c03.report(R)
     if not lean_ok:
         R.violation("theorems of Props/C03.lean no longer check: " + "; ".join(R.lean["failed"])[:600],
                     {"lean_log": R.lean["log"], "failed": R.lean["failed"]}, no_input=True)
